@@ -3,6 +3,7 @@ CONSTANTS N = 5
           NMin = 1
           Adj <- Adj2
           D0 = 1000000
+          Rule = "eth"
           Family = "all"
           LA = 0
           LB = 0
